@@ -143,5 +143,7 @@ def main(tier, seed, replay=None):
     ck.sample(cells[0])
     ck.sample(cells[len(cells) // 2])
     import hist
+    import tracecheck
+    tracecheck.check_traces(ck, 'C01', names=['add', 'add_flat', 'add_dup', 'add_big', 'topack', 'pack_clean'])
     hist.run_histories(ck, 'C01', [('mixed', 40 if tier == 'quick' else 600, 15, False)])
     return ck.finish()
